@@ -39,7 +39,7 @@ ASSUMPTIONS = [
 ]
 TIERS = {
     "quick": {"shards": 16, "cases": 1200, "calls": 32, "timeout": 300},
-    "thorough": {"shards": 16, "cases": 60000, "calls": 40, "timeout": 3000},
+    "thorough": {"shards": 16, "cases": 100000, "calls": 40, "timeout": 3000},
 }
 FLOORS = {
     "quick": {"counts": {"payloads_lexed": 30000, "routed_values_checked": 25000,
